@@ -126,6 +126,8 @@ func c04Judge(c *rep.Ctx, d []int, names []string, enc, route string) {
 		sp = enum.Spelling{Unit: "\t", Bullets: []byte("*-")}
 	case "heading":
 		sp = enum.Spelling{Unit: "  ", Bullets: []byte("-"), Heading: true}
+	case "mixed-roots":
+		sp = enum.Spelling{Unit: "  ", Bullets: []byte("-"), Heading: true, ListRootsFirst: 1}
 	case "opts":
 		opts = append(extraOpts("fmt,exts,nil,strict", ""), append(opts, extraOpts("target,nil", "/nonexistent/never/used")...)...)
 	}
@@ -176,7 +178,7 @@ func sortForest(f model.Forest) {
 	sort.SliceStable(f, func(i, j int) bool { return model.Key(model.Forest{f[i]}) < model.Key(model.Forest{f[j]}) })
 }
 
-var c04Variants = []string{"noiter", "alias", "massive", "plus", "plus-massive", "star-tab", "opts", "heading"}
+var c04Variants = []string{"noiter", "alias", "massive", "plus", "plus-massive", "star-tab", "opts", "heading", "mixed-roots"}
 
 func init() {
 	props["C04"] = func(c *rep.Ctx) {
@@ -209,7 +211,10 @@ func init() {
 						if (v == "plus" || v == "plus-massive" || v == "star-tab") && (rootOnlyNames || len(names[0]) != 1 || strings.TrimSpace(strings.Join(names, "")) == "") {
 							continue // other spellings: for the plain alphabets only
 						}
-						if v == "heading" {
+						if v == "mixed-roots" && roots < 2 {
+							continue
+						}
+						if v == "heading" || v == "mixed-roots" {
 							// roots written as "# name": for names a heading can carry (it trims blanks; a leading # is markup)
 							ok := !rootOnlyNames
 							for i, nm := range names {
@@ -224,7 +229,7 @@ func init() {
 						if !rootOnlyNames {
 							c04Judge(c, d, names, enc, "md+"+v)
 						}
-						if roots == 1 && !strings.HasPrefix(v, "plus") && v != "star-tab" && v != "heading" {
+						if roots == 1 && !strings.HasPrefix(v, "plus") && v != "star-tab" && v != "heading" && v != "mixed-roots" {
 							c04Judge(c, d, names, enc, "root+"+v)
 						}
 					}
